@@ -520,6 +520,25 @@ func compareTx(who string, rtx *store.Tx, st *store.ImmuStore, hdr *store.TxHead
 	if d := hdrDiff(hdr, rtx.Header()); d != "" {
 		return who + " header: " + d
 	}
+	// the other decoders of the stored record: the header-only reader (decodes and re-hashes the entry list without
+	// keeping it) and the single-entry reader
+	if h2, err := st.ReadTxHeader(hdr.ID, false, false); err != nil {
+		return fmt.Sprintf("%s ReadTxHeader: %v", who, err)
+	} else if d := hdrDiff(hdr, h2); d != "" {
+		return who + " ReadTxHeader: " + d
+	}
+	for i := range sh.Entries {
+		e, h3, err := st.ReadTxEntry(hdr.ID, dKeys[i], false)
+		if err != nil {
+			return fmt.Sprintf("%s ReadTxEntry(%x): %v", who, dKeys[i], err)
+		}
+		if d := hdrDiff(hdr, h3); d != "" {
+			return who + " ReadTxEntry header: " + d
+		}
+		if d := kvmdDiff(kvs[sh.Entries[i].KVMD], e.Metadata()); d != "" {
+			return fmt.Sprintf("%s ReadTxEntry entry %d: kv metadata %s", who, i, d)
+		}
+	}
 	if !txmdEquivalent(wantMD, rtx.Header().Metadata) {
 		return fmt.Sprintf("%s tx metadata: %s, want %s", who, mdBytes(rtx.Header().Metadata), mdBytes(wantMD))
 	}
